@@ -93,6 +93,32 @@ def trieOps : Nat → St → P St
         | none => s.v
       let v := v.failIf (n != s.es.length) s!"Trie::size wrong_count op={s.nops} impl={n} stored={s.es.length}"
       trieOps fuel { s with v := v }
+    | "rfc" =>
+      -- refine(filter(q1), q2): by `refine_chain` the answer is filter(q1 ++ q2)
+      let q1 ← pf; let q2 ← pf; let ids1 ← P.nats; let r ← P.nats
+      let v := s.v.failIf (!(sameIds ids1 (specFilter s.es q1))) s!"Trie::filter wrong_ids op={s.nops} q={q1} impl={ids1} spec={specFilter s.es q1}"
+      let m := s.t.refineCursor ids1 q2
+      let v := v.diffIf (m != r) s!"Trie::refine op={s.nops} (chain) model={m} impl={r}"
+      let spec := specFilter s.es (q1 ++ q2)
+      let v := v.failIf (!(sameIds r spec)) s!"Trie::refine chain_wrong_ids op={s.nops} q1={q1} q2={q2} ids1={ids1} impl={r} spec={spec}"
+      trieOps fuel { s with v := v }
+    | "rr" =>
+      -- refine(refine(ids, q1), q2) and refine(ids, q1 ++ q2): both the members of ids compatible with the joined key (`refine_refine`)
+      let ids ← P.nats; let q1 ← pf; let q2 ← pf; let r1 ← P.nats; let r2 ← P.nats; let r12 ← P.nats
+      let v := s.v.diffIf (s.t.refineCursor ids q1 != r1) s!"Trie::refine op={s.nops} (first of two) model={s.t.refineCursor ids q1} impl={r1}"
+      let v := v.diffIf (s.t.refineCursor r1 q2 != r2) s!"Trie::refine op={s.nops} (second of two) model={s.t.refineCursor r1 q2} impl={r2}"
+      let v := v.diffIf (s.t.refineCursor ids (q1 ++ q2) != r12) s!"Trie::refine op={s.nops} (joined key) model={s.t.refineCursor ids (q1 ++ q2)} impl={r12}"
+      let spec := specRefine s.es ids (q1 ++ q2)
+      let v := v.failIf (!(sameIds r1 (specRefine s.es ids q1))) s!"Trie::refine wrong_ids op={s.nops} ids={ids} q={q1} impl={r1} spec={specRefine s.es ids q1}"
+      let v := v.failIf (!(sameIds r2 spec)) s!"Trie::refine refine_twice_wrong_ids op={s.nops} ids={ids} q1={q1} q2={q2} impl={r2} spec={spec}"
+      let v := v.failIf (!(sameIds r12 spec)) s!"Trie::refine wrong_ids op={s.nops} ids={ids} q={q1 ++ q2} impl={r12} spec={spec}"
+      trieOps fuel { s with v := v }
+    | "rsv" => trieOps fuel s          -- Trie::reserve: capacity only
+    | "cpy" => trieOps fuel s          -- the history goes on on a copy: same abstract state
+    | "gf" =>
+      let a ← P.nats; let b ← P.nats
+      let v := s.v.failIf (a != s.t.F || b != s.t.F) s!"Trie::getF wrong_factor_space op={s.nops} getF={a} getFactors={b} F={s.t.F}"
+      trieOps fuel { s with v := v }
     | _ => P.fail
 
 def trieLine : P String := do
@@ -181,6 +207,7 @@ def ftrieOps : Nat → FSt → P FSt
       let spec := specFilter s.es (prefixPF 0 f)
       let v := v.failIf (!(sameIds r spec)) s!"FasterTrie::filter wrong_ids op={s.nops} f={f} impl={r} spec={spec}"
       ftrieOps fuel { s with v := v }
+    | "cpy" => ftrieOps fuel s
     | "siz" =>
       let n ← P.nat
       let v := s.v.diffIf (s.t.size != n) s!"FasterTrie::size op={s.nops} model={s.t.size} impl={n}"
@@ -266,6 +293,36 @@ def fmapOps (faster : Bool) : Nat → MSt → P MSt
       let n ← P.nat
       let v := s.v.failIf (n != s.es.length) s!"{comp}::size wrong_count op={s.nops} impl={n} stored={s.es.length}"
       fmapOps faster fuel { s with v := v }
+    | "get" =>
+      let id ← P.nat; let x ← P.nat
+      let its := if faster then s.mf.items else s.m.items
+      let v := s.v.failIf (its[id]? != some x) s!"{comp}::operator[] wrong_item op={s.nops} id={id} impl={x} emplaced={its[id]?}"
+      fmapOps faster fuel { s with v := v }
+    | "all" =>
+      let a ← P.nats; let b ← P.nats
+      let its := if faster then s.mf.items else s.m.items
+      let v := s.v.failIf (a != its) s!"{comp}::begin_end wrong_items op={s.nops} impl={a} emplaced={its}"
+      let v := v.failIf (b != its) s!"{comp}::getContainer wrong_items op={s.nops} impl={b} emplaced={its}"
+      fmapOps faster fuel { s with v := v }
+    | "gf" =>
+      let a ← P.nats; let b ← P.nats
+      let v := s.v.failIf (a != b) s!"{comp}::getF wrong_factor_space op={s.nops} impl={a} F={b}"
+      fmapOps faster fuel { s with v := v }
+    | "rsv" => fmapOps faster fuel s
+    | "rbd" =>
+      -- FilterMap(getTrie(), items) with as many items as stored entries: must be accepted (`FMInv_copy`); the history goes on on it
+      let items ← P.nats; let out ← P.tok
+      let mdl : String := if faster then (match FMF.ofTrie s.mf.trie items with | some _ => "ok" | none => "invalid_argument")
+        else (match FM.ofTrie sizeFB s.m.trie items with | some (some _) => "ok" | some none => "invalid_argument" | none => "ub")
+      let v := s.v.diffIf (mdl != out) s!"{comp}::FilterMap(trie,items) op={s.nops} model={mdl} impl={out}"
+      let v := v.failIf (out != "ok" && items.length == s.es.length) s!"{comp}::FilterMap(trie,items) rejects_matching_sizes op={s.nops} items={items.length} stored={s.es.length} outcome={out}"
+      if out == "ok" then
+        fmapOps faster fuel { s with m := { s.m with items := items }, mf := { s.mf with items := items }, v := v }
+      else fmapOps faster fuel { s with v := v }
+    | "rbx" =>
+      let n ← P.nat; let out ← P.tok
+      let v := s.v.failIf (out != "invalid_argument" && n != s.es.length) s!"{comp}::FilterMap(trie,items) accepts_different_sizes op={s.nops} items={n} stored={s.es.length} outcome={out}"
+      fmapOps faster fuel { s with v := v }
     | _ => P.fail
 
 def fmapLine (faster : Bool) : P String := do
@@ -315,6 +372,74 @@ def imiLine : P String := do
   let v := v.failIf (cmpWrong != 0) s!"{c} comparisons_or_differences_wrong count={cmpWrong}"
   pure v.render
 
+/-! `fmc trie|ftrie <F> <ins/era/erp …> | n outcome nq (f ids)*` : `FilterMap(trie, items)` over a trie that may have seen erasures,
+    `n = trie.size()` items.  Clause: if the constructor accepts, every id a filter hands out must address the item container
+    (`ofTrie_gap_counterexample`: the size test does not ensure that); if it rejects, some stored id must be outside the container. -/
+def fmcOps : Nat → Spec → P Spec
+  | 0, _ => P.fail
+  | fuel + 1, es => do
+    let op ← P.tok
+    match op with
+    | "|" => pure es
+    | "ins" => let q ← pf; let id ← P.nat; fmcOps fuel (specInsert es id q)
+    | "era" => let id ← P.nat; fmcOps fuel (specErase es id)
+    | "erp" => let id ← P.nat; let _ ← pf; fmcOps fuel (specErase es id)
+    | _ => P.fail
+
+def fmcQueries (comp : String) (es : Spec) (n : Nat) : Nat → Verdict → P Verdict
+  | 0, v => do P.eof; pure v
+  | k + 1, v => do
+    let f ← P.nats; let ids ← P.nats
+    let spec := specFilter es (prefixPF 0 f)
+    let v := v.failIf (!(sameIds ids spec)) s!"{comp}::filter wrong_ids f={f} impl={ids} spec={spec}"
+    let v := v.failIf (!(ids.all (· < n))) s!"{comp}::FilterMap(trie,items) id_outside_container f={f} ids={ids} items={n} (accepted: sizes agree, the trie has erased entries)"
+    fmcQueries comp es n k v
+
+def fmcLine : P String := do
+  let kind ← P.tok
+  let comp := if kind == "ftrie" then "FilterMap<FasterTrie>" else "FilterMap<Trie>"
+  let _F ← P.nats
+  let toks ← get
+  let es ← fmcOps (toks.length + 1) []
+  let n ← P.nat; let out ← P.tok; let nq ← P.nat
+  let dense := (specIds es).all (· < n)
+  let v : Verdict := { tag := if dense then "fmc" else "fmc gap" }
+  let v := v.failIf (n != es.length) s!"{comp}::size wrong_count impl={n} stored={es.length}"
+  let v := v.failIf (out != "ok" && dense) s!"{comp}::FilterMap(trie,items) rejects_valid_pair stored_ids={specIds es} items={n} outcome={out}"
+  let v ← fmcQueries comp es n nq v
+  pure v.render
+
+/-- `ism <kind> <ids> <cont> | visited values size` : IndexSkipMap walk against the as-written model (`skipWalkIds`); with an ascending
+    skip list the clause is the documented one (`skipWalkIds_spec`): exactly the unlisted container positions, in order -/
+def ismLine : P String := do
+  let kind ← P.tok
+  let ids ← P.nats; let cont ← P.nats; P.bar
+  let visited ← P.nats; let vals ← P.nats; let size ← P.nat; P.eof
+  let r : AITB.IndexMap.Rng := ⟨ids, cont⟩
+  let c := s!"IndexSkipMap<{kind}>"
+  let asc := (ids.zip (ids.drop 1)).all (fun p => decide (p.1 < p.2))
+  let v : Verdict := { tag := if cont.length ≤ 1 then "ism trivial" else if asc then "ism" else "ism unsorted" }
+  let m := AITB.IndexMap.skipWalkIds r
+  let v := v.diffIf (m != visited) s!"{c} walk model={m} impl={visited} ids={ids} n={cont.length}"
+  let v := v.diffIf (AITB.IndexMap.skipVisitIds r != m) s!"{c} as-written and merged models differ ids={ids} n={cont.length}"
+  let v := v.failIf (asc && visited != AITB.IndexMap.skipSpec r) s!"{c} wrong_entries ids={ids} n={cont.length} impl={visited} unlisted={AITB.IndexMap.skipSpec r}"
+  let v := v.failIf (vals.map some != visited.map (fun i => cont[i]?)) s!"{c} wrong_items visited={visited} items={vals}"
+  -- `size()` as written is the number of listed ids (see `skipSize_counterexample`); recorded, not judged
+  let v := v.diffIf (size != AITB.IndexMap.skipSizeAsWritten r) s!"{c} size model={AITB.IndexMap.skipSizeAsWritten r} impl={size}"
+  pure v.render
+
+/-- `srt <ids> <cont> | ids' values'` : `IndexMap::sort()`; clause `sortOK` (sound by `sortOK_sound`), item sequence unique by `sort_vals_unique` -/
+def srtLine : P String := do
+  let ids ← P.nats; let cont ← P.nats; P.bar
+  let ids' ← P.nats; let vals ← P.nats; P.eof
+  if !(ids.all (· < cont.length)) then pure "skip invalid_ids" else
+  let v : Verdict := { tag := if ids.length ≤ 1 then "srt trivial" else "srt" }
+  let v := v.failIf (!(AITB.IndexMap.sortOK cont ids ids')) s!"IndexMap::sort not_sorted_rearrangement ids={ids} cont={cont} impl={ids'}"
+  let v := v.failIf (vals != ids'.map (AITB.IndexMap.item cont)) s!"IndexMap::sort wrong_items ids={ids'} items={vals}"
+  let mv := (AITB.IndexMap.sortIds cont ids).map (AITB.IndexMap.item cont)
+  let v := v.diffIf (vals != mv) s!"IndexMap::sort item sequence model={mv} impl={vals}"
+  pure v.render
+
 def handle (toks : List String) : String :=
   let r := match toks with
     | "trie" :: rest => P.run trieLine rest
@@ -324,6 +449,9 @@ def handle (toks : List String) : String :=
     | "probe" :: rest => P.run probeLine rest
     | "ctor" :: rest => P.run ctorLine rest
     | "imi" :: rest => P.run imiLine rest
+    | "fmc" :: rest => P.run fmcLine rest
+    | "ism" :: rest => P.run ismLine rest
+    | "srt" :: rest => P.run srtLine rest
     | _ => none
   r.getD "bad-op"
 
